@@ -610,3 +610,9 @@ CHECKS.append(Check("zoomify_fields", lambda tier: [dict()], zfields_sym, zfield
                         "columns, dtypes and aggregations handed to zoomify_cooler are exactly the ones written for each column",
                     bounds=dict(forms="8 field spellings over the columns count, x, y; every subset with one spelling per column, both orders"),
                     stubs=("zoomify_cooler intercepted (its behaviour for given columns/dtypes/agg is C09 `zoomify` and C08 `coarsen`)",)))
+
+MUTANTS += [
+    dict(name="zoomify --field: aggregations paired with the columns in reverse", file="cli/zoomify.py", old="            agg = {col: f for col, f in zip(columns, agg) if f is not None}",
+         new="            agg = {col: f for col, f in zip(columns[::-1], agg) if f is not None}", checks=["zoomify_fields"]),
+    dict(name="zoomify --field: count always carried along", file="cli/zoomify.py", old="            columns = list(columns)\n", new="            columns = list(columns)\n            columns = columns if 'count' in columns else ['count'] + columns\n", checks=["zoomify_fields"]),
+]
